@@ -29,7 +29,7 @@ def _dist(a, b):
 def check_formula(case):
     tf = repo.mod("geodepy.transform")
     tr = TR.make_trans(case["trans"])
-    p = TR.params_of(tr)
+    p = TR.expected_params(case["trans"], tr)
     X = case["X"]
     nk = case.get("num", "float")
     got = tf.conform7(S.as_kind(X[0], nk), S.as_kind(X[1], nk), S.as_kind(X[2], nk), tr)
@@ -47,7 +47,7 @@ def check_formula(case):
 def check_reverse(case):
     tf = repo.mod("geodepy.transform")
     tr = TR.make_trans(case["trans"])
-    p = TR.params_of(tr)
+    p = TR.expected_params(case["trans"], tr)
     X = case["X"]
     a = tf.conform7(X[0], X[1], X[2], tr)
     neg = -tr
@@ -77,11 +77,9 @@ def check_covariance(case):
     tf = repo.mod("geodepy.transform")
     tr = TR.make_trans(case["trans"])
     sd = TR.sd_of(tr)
-    if sd is None:
-        raise Discard()
-    if any(0.0 < v < 1e-12 for v in sd):
+    if sd is not None and any(0.0 < v < 1e-12 for v in sd):
         raise Discard()      # squares of such uncertainties are subnormal: no relative comparison is meaningful
-    p = TR.params_of(tr)
+    p = TR.expected_params(case["trans"], tr)
     X = case["X"]
     V = np.array(case["vcv"], dtype=float)
     dt = case.get("dtype", "float64")
@@ -98,6 +96,15 @@ def check_covariance(case):
     V = V.astype(float)
     if not np.array_equal(V, V_before.astype(float)):
         raise Fail("conform7 modified the caller's covariance matrix", expected=V_before, observed=V)
+    # the point is transformed by the same formula whether or not a covariance travels with it
+    if not (isinstance(got, tuple) and len(got) == 4):
+        raise Fail("conform7 did not return (x, y, z, vcv)", observed=repr(got))
+    d = _dist(got[:3], H.apply_float(p, X))
+    if not d <= 1e-6:
+        raise Fail("conform7 called with a covariance differs from the exactly evaluated similarity formula by more than 1 micrometre",
+                   expected={"xyz": H.apply_float(p, X), "params": p}, observed={"xyz": got[:3], "dist_m": d}, bucket="formula with vcv")
+    if sd is None:
+        return               # no parameter uncertainties: the statement promises no covariance (the point was checked)
     out = got[3]
     if out is None or not hasattr(out, "shape") or out.shape != (3, 3):
         raise Fail("a covariance and a set with uncertainties were supplied but no 3x3 covariance was returned", observed=repr(out))
@@ -125,7 +132,7 @@ def _shipped():
 
 def _random(with_sd):
     sd = TR.random_sd7() if with_sd else st.one_of(st.none(), TR.random_sd7())
-    return st.fixed_dictionaries({"p": TR.random_p7(), "sd": sd})
+    return st.fixed_dictionaries({"p": TR.random_p7(), "sd": sd, "pnum": TR.pnum_kind})
 
 
 def _shipped_with_sd():
@@ -141,7 +148,8 @@ def _lazy(fn):
 cases = st.fixed_dictionaries({"trans": st.one_of(_lazy(_shipped), _lazy(_shipped), _random(False)),
                                "X": st.one_of(TR.point(5e7), TR.point(5e7), TR.point(5e7).map(lambda p: [float(round(v)) for v in p])),
                                "num": S.num_kind})
-cov_cases = st.fixed_dictionaries({"trans": st.one_of(_lazy(_shipped_with_sd), _random(True)), "X": TR.point(5e7),
+cov_cases = st.fixed_dictionaries({"trans": st.one_of(_lazy(_shipped_with_sd), _random(True), _random(True), _lazy(_shipped), _random(False)),
+                                   "X": TR.point(5e7),
                                    "vcv": TR.psd3(), "dtype": st.sampled_from(["float64", "float64", "float64", "int64", "float32"])})
 
 
